@@ -49,7 +49,7 @@ func c22(c *rig.Ctx) {
 		if i < 3 {
 			c.Sample(map[string]any{"run": run.payload(), "stats": st, "one_tx": sampleTx(run)})
 		}
-		if distinctViolationKeys() > 8 {
+		if distinctViolationKeys() > 25 {
 			break
 		}
 	}
@@ -174,7 +174,22 @@ func analyse22(r *txRun) map[string]int {
 					if rd.First {
 						for _, ow := range overwriters[v] {
 							if ow.Tx != tx && ow.Tx.EndRet < tx.SnapLo {
-								viol("c22/stale-snapshot", fmt.Sprintf("a transaction started after %s's COMMIT had returned still read the value %q which %s had replaced", ow.Tx.ID, v, ow.Tx.ID), tx, rd, map[string]any{"overwriter": ow.Tx.brief()})
+								var prev []any // what the reader's session did just before, and who saw the overwriter's value
+								for _, t2 := range r.txs {
+									if t2.Sess == tx.Sess && t2.Idx < tx.Idx && t2.Idx >= tx.Idx-3 {
+										prev = append(prev, t2.brief())
+									}
+								}
+								var seenBy []string
+								for _, t2 := range r.txs {
+									for _, rd2 := range t2.Reads {
+										if row, ok := rd2.Rows[pk]; ok && rd2.Br == rd.Br && row[col] == ow.Tx.net()[ow.Cell][1] {
+											seenBy = append(seenBy, fmt.Sprintf("%s at %d..%d", t2.ID, rd2.Call, rd2.Ret))
+										}
+									}
+								}
+								viol("c22/stale-snapshot", fmt.Sprintf("a transaction started after %s's COMMIT had returned still read the value %q which %s had replaced", ow.Tx.ID, v, ow.Tx.ID), tx, rd,
+									map[string]any{"overwriter": ow.Tx.brief(), "overwriter_final_value": ow.Tx.net()[ow.Cell][1], "reader_session_previous_txs": prev, "reads_that_saw_the_new_value": seenBy})
 								break
 							}
 						}
